@@ -37,6 +37,59 @@ def check(ctx, cfg):
     r5(ctx, cfg)
     r6(ctx, cfg)
     r7(ctx, cfg)
+    r8(ctx, cfg)
+
+
+def r8(ctx, cfg):
+    """what update_rewards hands back, when it hands anything back, is the validator's record as it is stored: callers that go on
+    with the returned record instead of looking it up again (rules read `update_rewards(.., validator)?` as that lookup:
+    C14.vinfo_source) then work on the stored state. Every success payload is the record found under VALIDATOR_INFO[validator] in
+    the module's view it was given, and a payload that was changed on the way is the very value saved there before returning."""
+    F, P = cfg.facts, cfg.prov
+    R = "C15.R8"
+    key = SK + "update_rewards"
+    f = ctx.need_fn(R, key)
+    if f is None:
+        return
+    from vlib.cfg import cfg_of
+    cf = cfg_of(f)
+    saves = store_calls(P, f, VINFO, ("save",))
+
+    def strip(o):
+        while o[0] == "vp":
+            o = o[2]
+        return o
+    bad = []
+    n = 0
+    rty = f.locals[0].get("s", "") if f.locals else ""
+    if "Result<()," in rty.replace(" ", "").replace("std::result::", ""):
+        ctx.ob(R, key, "hands-back-the-stored-record", True, "", fn=f, sample="hands nothing back (%s)" % rty[:60])
+        return
+    for site, v in q.success_return_sites(P, f):
+        o = peel(v)
+        if not (o[0] == "agg" and o[1].endswith("Result::Ok") and o[2]):
+            bad.append("the result of %s is handed on" % fmt(o)[:60])
+            continue
+        pay = strip(o[2][0][1])
+        if (pay[0] == "const" and pay[1] in ("unit", "zst", "()")) or (pay[0] == "agg" and pay[1] == "tuple" and not pay[2]) or fmt(pay) in ("()", "const ()"):
+            continue        # nothing handed back
+        n += 1
+        base = pay
+        while base[0] in ("upd", "vp"):
+            base = base[1] if base[0] == "upd" else base[2]
+        loaded = contains(base, lambda x: x[0] == "call" and x[1] in ("cw_storage_plus::Map::may_load", "cw_storage_plus::Map::load") and peel(x[2][0]) == VINFO and
+                          is_param(x[2][1], "staking_storage") and is_param(x[2][2], "validator")) and \
+            not contains(base, lambda x: x[0] == "call" and not (x[1].startswith("cw_storage_plus::Map::") or x[1].rsplit("::", 1)[-1] in (
+                "ok_or_else", "ok_or", "expect", "unwrap", "branch", "from_residual")))
+        if not loaded:
+            bad.append("%s is not the record stored for `validator`" % fmt(pay)[:80])
+        elif pay[0] == "upd":
+            same = [b for b, t in saves if strip(P.call_args(f, t, b)[3]) == pay and is_param(P.call_args(f, t, b)[1], "staking_storage") and
+                    is_param(P.call_args(f, t, b)[2], "validator")]
+            if not (same and all(cf.dominates(b, site[0]) for b in same)):
+                bad.append("the record is changed after (or without) being saved")
+    ctx.ob(R, key, "hands-back-the-stored-record", not bad, "update_rewards: %s" % "; ".join(bad[:2]), fn=f,
+           sample="%d record-bearing success results" % n if n else "hands nothing back")
 
 
 def r6(ctx, cfg):
